@@ -138,11 +138,18 @@ func genMixinDoc(r *R, tag string, usedIDs map[string]bool, idlessPct int) obj {
 	if r.P(45) {
 		var sec []any
 		for _, k := range sub(mixSecDefs, 45) {
+			req := obj{k: []any{}}
 			if r.P(50) {
-				sec = append(sec, obj{k: []any{}})
-			} else {
-				sec = append(sec, obj{k: []any{"read"}})
+				req = obj{k: []any{"read"}}
 			}
+			if r.P(35) {
+				// requirement naming several schemes (a strict superset of a single-scheme one)
+				req[r.Pick(mixSecDefs)] = []any{}
+			}
+			sec = append(sec, req)
+		}
+		if r.P(12) {
+			sec = append(sec, obj{})
 		}
 		if sec != nil {
 			doc["security"] = sec
